@@ -50,14 +50,17 @@ def run_property(prop, tier, hs, seed, jobs=6, mem=50, keep=False):
     kani_hs = [h for h in hs if h.overlay != "e3"]
     e3_hs = [h for h in hs if h.overlay == "e3"]
 
+    # one overlay per (kind, harness module): a change that breaks the compilation of one harness file (say, a private
+    # field an inductive harness sets directly was removed) must not take the harnesses of other modules with it
     overlays = {}
+    t = time.time()
+    for kind, module, hfile in sorted(set((h.overlay, h.module, h.hfile or "") for h in kani_hs)):
+        overlays[(kind, module, hfile)] = X.Overlay(kind, scratch, modules={module}, hfile=hfile or None)
     for kind in sorted(set(h.overlay for h in kani_hs)):
-        t = time.time()
-        overlays[kind] = X.Overlay(kind, scratch, modules=set(h.module for h in kani_hs if h.overlay == kind))
         X.log("[%s] overlay %s built from %s (%s) in %.1fs" % (prop, kind, X.REPO, X.repo_fingerprint(), time.time() - t))
 
     slots = {}
-    for kind in overlays:
+    for kind in sorted(set(k[0] for k in overlays)):
         q = queue.Queue()
         n = min(jobs, sum(1 for h in kani_hs if h.overlay == kind))
         for i in range(n):
@@ -68,7 +71,7 @@ def run_property(prop, tier, hs, seed, jobs=6, mem=50, keep=False):
     results = {}
 
     def job(h):
-        ov = overlays[h.overlay]
+        ov = overlays[(h.overlay, h.module, h.hfile or "")]
         tdir = slots[h.overlay].get()
         try:
             os.makedirs(os.path.dirname(tdir), exist_ok=True)
@@ -150,7 +153,7 @@ def run_property(prop, tier, hs, seed, jobs=6, mem=50, keep=False):
         shutil.rmtree(dst, ignore_errors=True)
         os.makedirs(os.path.dirname(dst), exist_ok=True)
         shutil.copytree(logdir, dst)
-    return {"exit": code, "results": results, "harnesses": hs, "overlays": {k: v.kind for k, v in overlays.items()}}
+    return {"exit": code, "results": results, "harnesses": hs, "overlays": {"/".join(k): v.kind for k, v in overlays.items()}}
 
 
 def confirm(prop, h, ov, tdir, logdir, r):
